@@ -13,7 +13,7 @@ Slice / Map assignability: SliceMapTypes.tla enumerates (element, parameter) typ
 type lattice with the verdict Assignable(elem, param) of the Go specification; each pair is
 rendered as a cff.Parallel with a Slice, a Map key and a Map value position."""
 import json, os, random, re, shutil, subprocess
-from vlib import Inconclusive, GOENV
+from vlib import Inconclusive, GOENV, REPO
 
 
 # ------------------------------------------------------------------ graphs from TLC
@@ -210,8 +210,8 @@ def write_pkg(root, pkg, files, maxk):
 def write_mod(root, mod="vwf"):
     os.makedirs(root, exist_ok=True)
     with open(os.path.join(root, "go.mod"), "w") as f:
-        f.write("module %s\n\ngo 1.19\n\nrequire go.uber.org/cff v0.1.0\n\nreplace go.uber.org/cff => /repo\n" % mod)
-    shutil.copy("/repo/internal/tests/go.sum", os.path.join(root, "go.sum"))
+        f.write("module %s\n\ngo 1.19\n\nrequire go.uber.org/cff v0.1.0\n\nreplace go.uber.org/cff => %s\n" % (mod, REPO))
+    shutil.copy(REPO + "/internal/tests/go.sum", os.path.join(root, "go.sum"))
 
 
 DIAG = re.compile(r"([A-Za-z0-9_./-]+\.go):(\d+):(\d+): (.*)")
